@@ -77,11 +77,21 @@ def handle6 (op : String) (a obs : List String) : Option Verdict :=
     let model :=
       if style == "drop_all" then
         ["accept_uni=-", "accept_bi=-", "recv_dgram=-", "later_accept_uni=-", "later_open_uni=-", "later_open_bi=-",
-         "closed=-", "held_read=-", "held_write=-", s!"peer_close={peer}"]
+         "closed=-", "held_read=-", "held_write=-", s!"peer_close={peer}", "held_finish=-"]
       else
         [s!"accept_uni={via}", s!"accept_bi={via}", s!"recv_dgram={via}", s!"later_accept_uni={via}",
          s!"later_open_uni={dir}", s!"later_open_bi={dir}", s!"closed={dir}", s!"held_read={held}",
-         s!"held_write={held}", s!"peer_close={peer}"]
+         s!"held_write={held}", s!"peer_close={peer}",
+         -- a finish on a held stream after the end, and its repetition: quinn's `stopped()` answers
+         -- ConnectionLost both times (`StreamMap.finishCall` with either synchronous result)
+         (if whenS == "streams" then
+            let one (syncErr : Bool) : String :=
+              match StreamMap.finishCall syncErr (some .connectionLost) with
+              | some (.error .notConnected) => "not_connected"
+              | some (.ok ()) => "ok"
+              | _ => "?"
+            s!"held_finish={one false},{one true}"
+          else "held_finish=-")]
     -- the property on the observation: every call ends, with the actual cause or (where the
     -- library itself shut the transport down) a local close; peer codes and reasons exact
     let actual := connErr (Result.actual cause)
@@ -99,6 +109,8 @@ def handle6 (op : String) (a obs : List String) : Option Verdict :=
             ["accept_uni", "accept_bi", "recv_dgram", "later_accept_uni"].all (fun c => field obs c == actual)
           | _ => true),
          ("held_streams_end", whenS != "streams" || (field obs "held_read" != "timeout" && field obs "held_write" != "timeout")),
+         ("later_stream_calls_fail_never_succeed", whenS != "streams" ||
+            (field obs "held_write" != "ok" && (splitList (field obs "held_finish")).all (fun r => r != "ok" && r != "timeout"))),
          ("peer_told", field obs "peer_close" != "alive")])
     pure (model, prop)
   | "drop.handles" =>
